@@ -44,6 +44,10 @@ type node struct {
 	id       int
 	async    bool // pooled stage (baseStage.ctx and execPool set)
 	rej      byte // 0: the pool accepts the task; 'X': stopped pool; 'C': cancelled context on a saturated pool
+	queued   bool // 'Q': pooled on a 1-worker pool whose worker is busy; the stage's context is cancelled
+	//               after Submit accepted the task and before a worker picks it up
+	cancel   context.CancelFunc
+	cwait    chan struct{} // non-nil: the stage's Complete() hook parks until the harness closes it
 	out      byte // 'o' ok, 'e' error, 'p' execution panics, 'l' Plan() panics, 'n' NextStages() panics
 	children []*node
 	parent   *node
@@ -61,6 +65,9 @@ func (n *node) token() string {
 	}
 	if n.rej != 0 {
 		k = string(n.rej)
+	}
+	if n.queued {
+		k = "Q"
 	}
 	return fmt.Sprintf("%s%c%d", k, n.out, len(n.children))
 }
@@ -101,6 +108,7 @@ func tree(s string) *node {
 		if s[pos] == 'X' || s[pos] == 'C' {
 			n.rej = s[pos]
 		}
+		n.queued = s[pos] == 'Q'
 		pos += 2
 		if pos < len(s) && s[pos] == '(' {
 			pos++
@@ -172,6 +180,7 @@ func genTree(r *rand.Rand, kind genKind, maxNodes int) *node {
 	}
 	budget := 1 + r.Intn(maxNodes)
 	asyncP := []int{20, 50, 80}[r.Intn(3)]
+	haveQ := new(bool)
 	var build func(depth int, onMain bool) *node
 	build = func(depth int, onMain bool) *node {
 		budget--
@@ -185,6 +194,9 @@ func genTree(r *rand.Rand, kind genKind, maxNodes int) *node {
 		}
 		if kind == genReject && n.async && r.Intn(4) == 0 {
 			n.rej = []byte{'X', 'C'}[r.Intn(2)]
+		}
+		if n.async && n.rej == 0 && !*haveQ && r.Intn(12) == 0 {
+			n.queued, *haveQ = true, true
 		}
 		if depth < 4 {
 			fan := r.Intn(4)
@@ -213,8 +225,9 @@ type event struct {
 }
 
 type gateOp struct {
-	n  *node
-	ev chan event
+	n    *node
+	ev   chan event
+	done chan struct{} // closed when the case is over: nothing parks any more
 }
 
 var errScripted = errors.New("scripted stage failure")
@@ -224,8 +237,14 @@ func (o *gateOp) Identifier() string { return "verif-op-" + strconv.Itoa(o.n.id)
 // Execute is called by the real planNode.ExecuteWithStats inside the real baseStage.execute, on
 // the goroutine the real baseStage.Execute chose (inline or a pool worker).
 func (o *gateOp) Execute() error {
-	o.ev <- event{kind: "gate", n: o.n}
-	<-o.n.gate
+	select {
+	case o.ev <- event{kind: "gate", n: o.n}:
+	case <-o.done:
+	}
+	select {
+	case <-o.n.gate:
+	case <-o.done:
+	}
 	switch o.n.out {
 	case 'e':
 		return errScripted
@@ -248,6 +267,7 @@ type obs struct {
 	timeout     string
 	panicked    []*node
 	rejected    []*node // pooled stages whose pool rejected the task
+	vanished    []*node // 'Q' stages whose accepted task never reached the stage's execution
 	threadPanic map[int]bool
 }
 
@@ -258,6 +278,27 @@ type env struct {
 	full      concurrent.Pool // 1 worker, saturated with blocked tasks: only `<-ctx.Done()` is ready in Submit
 	cancelled context.Context
 	unblock   chan struct{}
+	qpool     concurrent.Pool // 1 worker; kept busy by a blocker while a 'Q' stage's task waits in the queue
+	qfree     chan struct{}   // closing it ends the current blocker
+}
+
+// qBlock makes sure the only worker of qpool is busy.
+func (e *env) qBlock() {
+	if e.qfree != nil {
+		return
+	}
+	free, started := make(chan struct{}), make(chan struct{})
+	e.qfree = free
+	e.qpool.Submit(context.Background(), concurrent.NewTask(func() { close(started); <-free }, nil))
+	<-started
+}
+
+// qFree lets the worker of qpool go on to the queued task.
+func (e *env) qFree() {
+	if e.qfree != nil {
+		close(e.qfree)
+		e.qfree = nil
+	}
 }
 
 func newEnv() *env {
@@ -277,11 +318,15 @@ func newEnv() *env {
 	ctx, cancel := context.WithCancel(context.Background())
 	cancel()
 	e.cancelled = ctx
+	e.qpool = concurrent.NewPool("verif-c19-queue", 1, time.Minute,
+		metrics.NewConcurrentStatistics("verif-c19-queue", linmetric.BrokerRegistry))
 	return e
 }
 
 func (e *env) close() {
 	close(e.unblock)
+	e.qFree()
+	e.qpool.Stop()
 	e.full.Stop()
 	e.pool.Stop()
 }
@@ -295,7 +340,10 @@ type runner struct {
 	pipe    query.Pipeline
 	blocked map[int]*node // goroutine -> stage it is parked in front of
 	nextThr int
+	done    chan struct{} // closed at the end of the case
 	pendArr int // submitted tasks that have not reached their gate yet
+	parked  int // goroutines parked inside a Complete() hook: their Complete() was counted, their Dec is outstanding
+	queuedN *node // a 'Q' stage whose task was submitted and waits in the queue of the busy 1-worker pool
 	o       obs
 	failed  bool // some executed stage has failed or panicked so far
 }
@@ -310,7 +358,7 @@ func (r *runner) mkStage(n *node) stage.Stage {
 			if n.out == 'l' {
 				panic(fmt.Sprintf("scripted panic in Plan() of stage %d", n.id))
 			}
-			return stage.NewPlanNode(&gateOp{n: n, ev: r.ev})
+			return stage.NewPlanNode(&gateOp{n: n, ev: r.ev, done: r.done})
 		},
 		NextFn: func() []stage.Stage {
 			if n.out == 'n' {
@@ -322,9 +370,22 @@ func (r *runner) mkStage(n *node) stage.Stage {
 			}
 			return next
 		},
-		CompleteFn: func() { r.ev <- event{kind: "complete", n: n} },
+		CompleteFn: func() {
+			r.ev <- event{kind: "complete", n: n}
+			if n.cwait != nil {
+				// parked inside the Complete() hook (the real code calls it under sm.mutex)
+				select {
+				case <-n.cwait:
+				case <-r.done:
+				}
+			}
+		},
 	}
 	switch {
+	case n.queued:
+		var qctx context.Context
+		qctx, n.cancel = context.WithCancel(context.Background())
+		spec.Ctx, spec.Pool = qctx, r.env.qpool
 	case n.rej == 'X':
 		spec.Ctx, spec.Pool = r.ctx, r.env.stopped
 	case n.rej == 'C':
@@ -358,17 +419,53 @@ func (r *runner) state() (int32, bool) {
 
 // settle consumes events until goroutine `running` is parked at a gate or has ended and every
 // submitted task has reached its gate.
-func (r *runner) settle(running int) {
+func (r *runner) settle(running int) { r.settleP(running, 0) }
+
+// settleP is settle with a patience: when patience > 0 and no event arrives for that long the
+// goroutine is taken to be blocked on sm.mutex (held by a goroutine parked in a Complete() hook) and
+// settleP returns true.
+func (r *runner) settleP(running int, patience time.Duration) (stalled bool) {
 	runningDone := false
-	timer := time.NewTimer(evTimeout)
+	limit := evTimeout
+	if patience > 0 {
+		limit = patience
+	}
+	timer := time.NewTimer(limit)
 	defer timer.Stop()
-	for !(runningDone && r.pendArr == 0) {
+	var waitingQ *node
+	for {
+		if runningDone && r.pendArr == 0 {
+			if r.queuedN == nil {
+				return false
+			}
+			// the launching goroutine is quiescent, so Submit has accepted the 'Q' stage's task and it
+			// waits for the busy worker: cancel the stage's context, then free the worker
+			waitingQ, r.queuedN = r.queuedN, nil
+			waitingQ.cancel()
+			// the sentinel runs on the single worker right after the stage's task: if it reports before the
+			// stage reached its gate, the accepted task ended without executing the stage
+			qn, ev, done := waitingQ, r.ev, r.done
+			r.env.qpool.Submit(context.Background(), concurrent.NewTask(func() {
+				select {
+				case ev <- event{kind: "qdone", n: qn}:
+				case <-done:
+				}
+			}, nil))
+			r.env.qFree()
+			r.pendArr++
+		}
 		var e event
 		select {
 		case e = <-r.ev:
+			if patience > 0 {
+				timer.Reset(limit)
+			}
 		case <-timer.C:
+			if patience > 0 {
+				return true
+			}
 			r.o.timeout = fmt.Sprintf("no event for %v while goroutine %d was running (pending arrivals %d)", evTimeout, running, r.pendArr)
-			return
+			return false
 		}
 		switch e.kind {
 		case "ident":
@@ -387,6 +484,10 @@ func (r *runner) settle(running int) {
 				e.n.thread = -1
 				r.failed = true
 				r.o.rejected = append(r.o.rejected, e.n)
+			case e.n.queued:
+				e.n.thread = r.nextThr
+				r.nextThr++
+				r.queuedN = e.n
 			case e.n.async:
 				e.n.thread = r.nextThr
 				r.nextThr++
@@ -396,6 +497,9 @@ func (r *runner) settle(running int) {
 			}
 		case "gate":
 			if e.n.async {
+				if e.n == waitingQ {
+					waitingQ = nil
+				}
 				r.pendArr--
 				r.blocked[e.n.thread] = e.n
 			} else {
@@ -407,11 +511,15 @@ func (r *runner) settle(running int) {
 			if r.o.cb == 0 {
 				r.o.lastDone = e.n
 			}
-			if e.n.async && e.n.rej == 0 && e.n.out != 'l' && e.n.thread == running {
+			if e.n.cwait != nil && e.n.thread == running {
+				// parked inside its Complete() hook
+				r.parked++
+				runningDone = true
+			} else if e.n.async && e.n.rej == 0 && e.n.out != 'l' && e.n.thread == running {
 				// the task's own stage: completeStage is the last thing the task does.
 				// Wait for its Dec (and the callback it may trigger).
 				if !r.awaitDec() {
-					return
+					return false
 				}
 				runningDone = true
 			}
@@ -420,6 +528,13 @@ func (r *runner) settle(running int) {
 			r.o.cbErr = append(r.o.cbErr, e.err != nil)
 			if r.o.cb == 1 {
 				r.o.regAtCb, r.o.doneAtCb, r.o.failedAtCb = r.o.reg, r.o.done, r.failed
+			}
+		case "qdone":
+			if e.n == waitingQ {
+				// the accepted task never executed the stage
+				r.pendArr--
+				r.o.vanished = append(r.o.vanished, waitingQ)
+				waitingQ = nil
 			}
 		case "maindone":
 			if running == 0 {
@@ -433,7 +548,7 @@ func (r *runner) settle(running int) {
 // just observed, and, when that Dec reached zero on a pipeline that was not completed before, for
 // the callback.
 func (r *runner) awaitDec() bool {
-	want := int32(r.o.reg - r.o.done)
+	want := int32(r.o.reg - r.o.done + r.parked)
 	deadline := time.Now().Add(2 * time.Second)
 	for {
 		p, _ := r.state()
@@ -512,7 +627,7 @@ func (r *runner) final() string {
 func runPipeline(c *core.Ctx, en *env, root *node, rng *rand.Rand, sched []int) (*runner, []int) {
 	all := number(root)
 	r := &runner{c: c, env: en, ctx: context.Background(), ev: make(chan event, 4096), all: all,
-		blocked: map[int]*node{}, nextThr: 1}
+		blocked: map[int]*node{}, nextThr: 1, done: make(chan struct{})}
 	r.o.threadPanic = map[int]bool{}
 	taskCtx := flow.NewTaskContextWithTimeout(context.Background(), time.Minute)
 	defer taskCtx.Release()
@@ -521,6 +636,12 @@ func runPipeline(c *core.Ctx, en *env, root *node, rng *rand.Rand, sched []int) 
 	})
 	rootStage := r.mkStage(root)
 	root.thread = 0
+	// before anything runs: the worker of the 1-worker pool must be busy when a 'Q' stage is submitted
+	for _, n := range all {
+		if n.queued {
+			r.env.qBlock()
+		}
+	}
 	go func() {
 		defer func() {
 			if x := recover(); x != nil {
@@ -533,26 +654,8 @@ func runPipeline(c *core.Ctx, en *env, root *node, rng *rand.Rand, sched []int) 
 	}()
 	c.Op("new "+tokens(root), func() string { r.settle(0); return r.status() }())
 	var used []int
-	for step := 0; len(r.blocked) > 0 && r.o.timeout == ""; step++ {
-		var k int
-		if sched != nil {
-			if step >= len(sched) {
-				break
-			}
-			k = sched[step]
-			if _, ok := r.blocked[k]; !ok {
-				r.o.timeout = fmt.Sprintf("scripted schedule releases goroutine %d which is not parked", k)
-				break
-			}
-		} else {
-			var ids []int
-			for id := range r.blocked {
-				ids = append(ids, id)
-			}
-			sort.Ints(ids)
-			k = ids[rng.Intn(len(ids))]
-		}
-		used = append(used, k)
+	// release: goroutine k leaves the gate in front of its stage's execution
+	release := func(k int) *node {
 		n := r.blocked[k]
 		delete(r.blocked, k)
 		n.executed = true
@@ -564,6 +667,76 @@ func runPipeline(c *core.Ctx, en *env, root *node, rng *rand.Rand, sched []int) 
 			r.o.threadPanic[k] = true
 		}
 		n.gate <- struct{}{}
+		return n
+	}
+	cwinOK := func(a int) bool {
+		n := r.blocked[a]
+		return n != nil && n.async && n.rej == 0 && !n.queued && n.out == 'o' && len(n.children) == 0
+	}
+	didCwin := false
+	for step := 0; len(r.blocked) > 0 && r.o.timeout == ""; step++ {
+		var k int
+		cwA, cwB := -1, -1
+		var ids []int
+		for id := range r.blocked {
+			ids = append(ids, id)
+		}
+		sort.Ints(ids)
+		if sched != nil {
+			if step >= len(sched) {
+				break
+			}
+			k = sched[step]
+			if k < 0 {
+				cwA, cwB = (-k-1)/1000, (-k-1)%1000
+				k = cwA
+			}
+			if _, ok := r.blocked[k]; !ok || (cwA >= 0 && (r.blocked[cwB] == nil || !cwinOK(cwA))) {
+				r.o.timeout = fmt.Sprintf("scripted schedule releases goroutine %d which is not parked", k)
+				break
+			}
+		} else {
+			k = ids[rng.Intn(len(ids))]
+			if !didCwin && len(ids) >= 2 && cwinOK(k) && rng.Intn(4) == 0 {
+				cwA = k
+				for cwB = k; cwB == k; {
+					cwB = ids[rng.Intn(len(ids))]
+				}
+			}
+		}
+		if cwA >= 0 {
+			// the window inside completeStage: A (a successful pooled leaf stage) parks inside its
+			// Complete() hook; B is released and runs as far as it can (in the source as it is the hook
+			// runs under sm.mutex, so B stalls at its next critical section); then A goes on.
+			didCwin = true
+			c.Branch("complete-hook-window")
+			used = append(used, -(cwA*1000 + cwB + 1))
+			a := r.blocked[cwA]
+			a.cwait = make(chan struct{})
+			release(cwA)
+			r.settle(cwA) // until A is inside Complete()
+			if r.o.timeout != "" {
+				close(a.cwait)
+				break
+			}
+			release(cwB)
+			stalled := r.settleP(cwB, 4*time.Millisecond)
+			if stalled {
+				c.Branch("complete-hook-window-other-stage-stalled-on-mutex")
+			}
+			r.parked--
+			close(a.cwait)
+			if stalled {
+				r.settle(cwB)
+			}
+			if r.o.timeout == "" {
+				r.awaitDec() // A's Dec (and everybody else's)
+			}
+			c.Op(fmt.Sprintf("cwin %d %d", cwA, cwB), r.status())
+			continue
+		}
+		used = append(used, k)
+		release(k)
 		r.settle(k)
 		c.Op("rel "+strconv.Itoa(k), r.status())
 	}
@@ -593,6 +766,7 @@ func runPipeline(c *core.Ctx, en *env, root *node, rng *rand.Rand, sched []int) 
 	}
 	c.Op("end", r.final())
 	// never leave a goroutine parked
+	close(r.done)
 	for _, n := range all {
 		select {
 		case n.gate <- struct{}{}:
@@ -629,7 +803,11 @@ func (r *runner) completedWithErr(n *node) bool {
 func describe(root *node, used []int) string {
 	ss := make([]string, len(used))
 	for i, k := range used {
-		ss[i] = strconv.Itoa(k)
+		if k < 0 {
+			ss[i] = fmt.Sprintf("cwin(%d,%d)", (-k-1)/1000, (-k-1)%1000)
+		} else {
+			ss[i] = strconv.Itoa(k)
+		}
 	}
 	return fmt.Sprintf("tree [%s] release order [%s]", tokens(root), strings.Join(ss, " "))
 }
@@ -673,6 +851,9 @@ func (r *runner) oracle(c *core.Ctx, root *node, used []int, witness string) {
 			}
 		}
 		switch {
+		case len(o.vanished) > 0:
+			c.Fail("no-callback-cancelled-while-queued", fmt.Sprintf("%s: the task of pooled stage #%d was accepted by the pool, the stage's context was cancelled before a worker picked it up, and the task returned without completing the stage; completion is never signalled",
+				what, o.vanished[0].id))
 		case len(o.rejected) > 0:
 			c.Fail(key("no-callback-task-rejected-by-pool"), fmt.Sprintf("%s: the pool rejected the task of pooled stage #%d (stopped pool / cancelled context) without telling anybody; the stage stays registered (pending>0) and completion is never signalled",
 				what, o.rejected[0].id))
@@ -700,7 +881,7 @@ func (r *runner) oracle(c *core.Ctx, root *node, used []int, witness string) {
 		case o.lastDone != nil && !r.completedWithErr(o.lastDone):
 			c.Fail(key("error-lost-last-finisher-ok"), fmt.Sprintf("%s: a stage failed, the stage that completed last (#%d) succeeded, callback argument is nil", what, o.lastDone.id))
 		default:
-			c.Fail("error-lost-last-finisher-failed", what+": the stage that completed last had failed itself, callback argument is nil")
+			c.Fail("error-lost-last-finisher-failed", fmt.Sprintf("%s: a stage had failed (the last Complete() before the callback was stage #%d's, which failed itself), callback argument is nil", what, o.lastDone.id))
 		}
 	}
 }
@@ -742,6 +923,15 @@ var fixed = []fixedCase{
 	{"Sn(So)", []int{0}, ""},
 	{"So(An(So),Ao)", []int{0, 2, 1}, ""},
 	{"So(Ao(Sn(So)))", []int{0, 1, 1}, ""},
+	// the window inside completeStage: a successful stage is inside its Complete() hook (and last to
+	// decrement pending) while another stage fails and completes
+	{"So(Ao,Ae)", []int{0, -(1*1000 + 2 + 1)}, ""},
+	{"So(Ao,Ao(Se))", []int{0, -(1*1000 + 2 + 1), 2}, ""},
+	{"Ao(Ao,Ap,Ao)", []int{1, -(2*1000 + 3 + 1), 4}, ""},
+	// the query context is cancelled after Pool.Submit accepted the stage's task and before a worker
+	// picks it up: the stage still has to be executed or completed with an error
+	{"So(Qo)", []int{0, 1}, ""},
+	{"So(Ao(Qe),Ao)", []int{0, 1, 3, 2}, ""},
 	// (c) the pool rejects the task of a registered stage: stopped pool / cancelled context
 	{"So(Xo)", []int{0}, "witness-rejected-task-stopped-pool"},
 	{"So(Ao(Co,Ae))", []int{0, 1, 2}, "witness-rejected-task-cancelled-context"},
@@ -805,10 +995,10 @@ func (area) Run(c *core.Ctx) error {
 		if !c.Want(i) {
 			continue
 		}
-		if timeouts >= 3 {
+		if timeouts >= 4 {
 			// the implementation stopped following the protocol (each such case costs seconds and
 			// leaves goroutines behind); three recorded failures are enough to decide
-			c.Note("aborted after 3 timeouts")
+			c.Note("aborted after 4 cases in which the implementation stopped following the protocol")
 			break
 		}
 		rng := c.Rng(i)
@@ -819,7 +1009,7 @@ func (area) Run(c *core.Ctx) error {
 			c.Branch("fixed-witness")
 			r, used := runPipeline(c, pool, root, rng, f.sched)
 			r.oracle(c, root, used, f.witness)
-			if r.o.timeout != "" {
+			if r.o.timeout != "" || len(r.o.vanished) > 0 {
 				timeouts++
 			}
 			c.NonTrivial()
@@ -846,7 +1036,7 @@ func (area) Run(c *core.Ctx) error {
 		c.Branch([]string{"gen-no-panic", "gen-recoverable-panics", "gen-any-panic", "gen-lindb-shape", "gen-rejected-tasks"}[kind])
 		r, used := runPipeline(c, pool, root, rng, nil)
 		r.oracle(c, root, used, "")
-		if r.o.timeout != "" {
+		if r.o.timeout != "" || len(r.o.vanished) > 0 {
 			timeouts++
 		}
 		// distribution
